@@ -379,8 +379,28 @@ def front_part(ctx):
                 out[k] = (kind, s + k, D)
             return out
         return f
-    m._SINGLE = {k: (lambda N, D, k=k: (k, N, D)) for k in ("sobol", "kgf")}
-    m._BATCH = {k: batch_stub(k) for k in ("sobol", "kgf")}
+    # the four real generators are replaced wherever the module refers to them (names and dispatch tables alike), so that
+    # the wiring of the tables is part of what is executed
+    import chmpy.sampling as realmod
+    repl = {}
+    for kind in ("sobol", "kgf"):
+        single, batch = getattr(realmod, "quasirandom_%s" % kind), getattr(realmod, "quasirandom_%s_batch" % kind)
+        repl[id(single)] = (lambda N, D, k=kind: (k, N, D))
+        repl[id(batch)] = batch_stub(kind)
+
+    def swap(v, depth=0):
+        if id(v) in repl:
+            return repl[id(v)]
+        if depth < 3 and isinstance(v, dict):
+            return {k: swap(x, depth + 1) for k, x in v.items()}
+        if depth < 3 and isinstance(v, (tuple, list)):
+            return type(v)(swap(x, depth + 1) for x in v)
+        return v
+    for name, val in list(m.__dict__.items()):
+        if not name.startswith("__") and (callable(val) or isinstance(val, (dict, tuple, list))):
+            new = swap(val)
+            if new is not val:
+                m.__dict__[name] = new
     seed, d2 = Sym(z3.Int("seed")), Sym(z3.Int("d2"))
     bad = False
     for method in ("sobol", "kgf"):
